@@ -189,6 +189,9 @@ class Prop:
 
     def expected(self, syntax, opts):
         between, after = BETWEEN_AFTER[syntax]
+        # `<between>` / `<after>` of the statement are the configured ones when the configuration names them
+        between = opts.get('stylesheet.between', between)
+        after = opts.get('stylesheet.after', after)
         vals = []
         for v in self.values:
             vals.append(expected_number(v, self.prop, opts) if isinstance(v, Num) else expected_color(v, opts))
@@ -309,12 +312,220 @@ def abbr_text(props):
 
 
 def expected_text(props, syntax, opts):
-    return '\n'.join(p.expected(syntax, opts) for p in props)
+    # one property per line; the line break is the configured `output.newline` (default '\n')
+    return opts.get('output.newline', '\n').join(p.expected(syntax, opts) for p in props)
 
 
 def well_formed(props):
     """`a+b`: a `+` directly after a value is fine; nothing else to exclude"""
     return True
+
+
+# ---------------------------------------------------------------- option forms (how a configuration may WRITE its options)
+# The statement quantifies over configurations.  A configuration is what the caller hands over, and a caller (an editor
+# reading JSON / INI / YAML settings, a script) may write the very same configuration in several ways.  This section
+# generates those ways; the expected lines are still computed from the description by the rules above.
+#  * switches: py-emmet's options are plain Python values read by truth value (as upstream Emmet reads its JS options with
+#    `if (options[...])`); a switch is ON for every truthy value and OFF for every falsy one.  Only values whose reading is
+#    not in doubt are used (no None, no 'false'/'0' strings).
+#  * defaults written out explicitly (documented defaults of emmet/config.py's option table, re-stated here).
+#  * `stylesheet.between` / `stylesheet.after` / `output.newline` set by the caller: they ARE the <between>, <after> and
+#    line break of the statement.
+#  * options that do not concern stylesheet property lines at all (markup / comment / bem / jsx options, output.indent:
+#    property lines are never nested) present in the same options dict.
+#  * list- and dict-valued options handed over as another container of the same content (tuple, frozenset, OrderedDict,
+#    read-only mapping).
+FORMS_ENABLED = True
+SWITCH_ON = [True, 1, 1.0, 2, 'true', 'yes', 'on']
+SWITCH_OFF = [False, 0, 0.0, '']
+SWITCH_OPTIONS = ['output.format', 'stylesheet.shortHex', 'stylesheet.json', 'stylesheet.jsonDoubleQuotes', 'stylesheet.skipUnmatched']
+BETWEEN_AFTER_CUSTOM = [(':', ';'), (': ', ''), (' ', ''), ('=', ';'), (' : ', ' ;'), (':\t', ';'), ('', '')]
+NEWLINES = ['\n', '\r\n', '\r']
+# options of other parts of the library (documented in upstream's config reference); none speaks about property lines
+UNRELATED_OPTIONS = {
+    'output.tagCase': ['upper', 'lower'], 'output.attributeCase': ['upper'], 'output.attributeQuotes': ['single'],
+    'output.selfClosingStyle': ['xhtml', 'xml'], 'output.inlineBreak': [0, 1], 'output.formatLeafNode': [True],
+    'output.compactBoolean': [True], 'output.reverseAttributes': [True], 'output.indent': ['  ', ''],
+    'output.formatSkip': [[]], 'output.formatForce': [['padding']], 'markup.href': [False], 'comment.enabled': [True],
+    'bem.enabled': [True], 'jsx.enabled': [True], 'markup.attributes': [{'class': 'className'}],
+}
+LIST_FORMS = ['tuple', 'frozenset']
+DICT_FORMS = ['OrderedDict', 'MappingProxyType']
+
+
+def spell(form, v):
+    """JSON-able spelling of a container value of another type (replay files carry it)"""
+    if form in LIST_FORMS:
+        return {'__form__': form, 'items': list(v)}
+    return {'__form__': form, 'items': [[k, x] for k, x in v.items()]}
+
+
+def unspell(v):
+    """the live Python value a spelled option value stands for"""
+    if isinstance(v, dict) and '__form__' in v:
+        import collections
+        import types
+        form, items = v['__form__'], v['items']
+        if form == 'tuple':
+            return tuple(items)
+        if form == 'frozenset':
+            return frozenset(items)
+        if form == 'OrderedDict':
+            return collections.OrderedDict((k, x) for k, x in items)
+        if form == 'MappingProxyType':
+            return types.MappingProxyType({k: x for k, x in items})
+        raise ValueError(form)
+    return v
+
+
+def plain(v):
+    """list / dict of the same content (what the oracle and the model read)"""
+    if isinstance(v, dict) and '__form__' in v:
+        return list(v['items']) if v['__form__'] in LIST_FORMS else {k: x for k, x in v['items']}
+    return v
+
+
+class FormCfg(Cfg):
+    """A Cfg whose options may be written in any of the forms above.  `options` holds the JSON-able spelling;
+    impl_config() hands the live values to the implementation; the model gets the same configuration in canonical form
+    (switches as booleans, containers as list / dict, unrelated options left out: the model has no notion of them)."""
+    kinds = ()
+
+    def live_options(self):
+        return {k: unspell(v) for k, v in self.options.items()}
+
+    def oracle_options(self):
+        return {k: plain(v) for k, v in self.options.items()}
+
+    def impl_config(self):
+        c = Cfg.impl_config(self)
+        c['options'] = {k: unspell(v) for k, v in c['options'].items()}
+        return c
+
+    def coq(self):
+        return Cfg(self.syntax, {k: plain(v) for k, v in self.options.items() if k in su.OPTION_OV}, self.snippets,
+                   self.context, self.tabstop).coq()
+
+
+def cfg_from_json(o):
+    return FormCfg(o.get('syntax', 'css'), o.get('options'), o.get('snippets'), o.get('context'), o.get('tabstop', False))
+
+
+def form_cfg(syntax, options, kinds):
+    c = FormCfg(syntax, options)
+    c.kinds = tuple(kinds)
+    return c
+
+
+def systematic_forms():
+    """(kinds, options): every form of every switch alone, every custom between/after and newline, the explicit defaults,
+    the unrelated options, every container form"""
+    out = []
+    for v in SWITCH_ON:
+        out.append((['switch-on:output.format'], {'output.format': v}))
+        out.append((['switch-on:stylesheet.shortHex'], {'stylesheet.shortHex': v}))
+    for v in SWITCH_OFF:
+        out.append((['switch-off:stylesheet.shortHex'], {'stylesheet.shortHex': v}))
+        out.append((['switch-off:stylesheet.json'], {'stylesheet.json': v}))
+    for v in SWITCH_ON + SWITCH_OFF:
+        out.append((['switch-without-effect'], {'stylesheet.skipUnmatched': v, 'stylesheet.jsonDoubleQuotes': v}))
+    for b, a in BETWEEN_AFTER_CUSTOM:
+        out.append((['between-after'], {'stylesheet.between': b, 'stylesheet.after': a}))
+    for nl in NEWLINES:
+        out.append((['newline'], {'output.newline': nl}))
+    out.append((['explicit-defaults'], {'output.format': True, 'output.newline': '\n', 'stylesheet.shortHex': True, 'stylesheet.json': False,
+                                        'stylesheet.intUnit': 'px', 'stylesheet.floatUnit': 'em', 'stylesheet.unitAliases': dict(DEFAULT_ALIASES),
+                                        'stylesheet.unitless': list(UNITLESS_PROPS)}))
+    out.append((['unrelated'], {k: vs[0] for k, vs in UNRELATED_OPTIONS.items()}))
+    out.append((['unrelated'], {k: vs[-1] for k, vs in UNRELATED_OPTIONS.items()}))
+    for f in LIST_FORMS:
+        out.append((['container:' + f], {'stylesheet.unitless': spell(f, ['padding', 'width'])}))
+        out.append((['container:' + f], {'stylesheet.unitless': spell(f, UNITLESS_PROPS)}))
+    for f in DICT_FORMS:
+        out.append((['container:' + f], {'stylesheet.unitAliases': spell(f, {'e': 'rem', 'p': 'pc', 'q': 'Q', 'x': 'px'})}))
+        out.append((['container:' + f], {'stylesheet.unitAliases': spell(f, DEFAULT_ALIASES)}))
+    return out
+
+
+def rand_forms(rng):
+    """a mixture: 1..4 of the ingredients, possibly on top of one of the OPTION_SETS"""
+    opts = dict(rng.choice(OPTION_SETS)) if rng.random() < 0.4 else {}
+    kinds = []
+    for ing in rng.sample(['format', 'shorthex', 'json', 'noeffect', 'ba', 'nl', 'unrelated', 'list', 'dict', 'defaults'], rng.choice([1, 2, 2, 3, 4])):
+        if ing == 'format':
+            opts['output.format'] = rng.choice(SWITCH_ON)
+            kinds.append('switch-on:output.format')
+        elif ing == 'shorthex':
+            on = rng.random() < 0.5
+            opts['stylesheet.shortHex'] = rng.choice(SWITCH_ON if on else SWITCH_OFF)
+            kinds.append('switch-%s:stylesheet.shortHex' % ('on' if on else 'off'))
+        elif ing == 'json':
+            opts['stylesheet.json'] = rng.choice(SWITCH_OFF)
+            kinds.append('switch-off:stylesheet.json')
+        elif ing == 'noeffect':
+            opts[rng.choice(['stylesheet.skipUnmatched', 'stylesheet.jsonDoubleQuotes'])] = rng.choice(SWITCH_ON + SWITCH_OFF)
+            kinds.append('switch-without-effect')
+        elif ing == 'ba':
+            opts['stylesheet.between'], opts['stylesheet.after'] = rng.choice(BETWEEN_AFTER_CUSTOM)
+            kinds.append('between-after')
+        elif ing == 'nl':
+            opts['output.newline'] = rng.choice(NEWLINES)
+            kinds.append('newline')
+        elif ing == 'unrelated':
+            for k in rng.sample(sorted(UNRELATED_OPTIONS), rng.randint(1, 5)):
+                opts[k] = rng.choice(UNRELATED_OPTIONS[k])
+            kinds.append('unrelated')
+        elif ing == 'list':
+            f = rng.choice(LIST_FORMS)
+            cur = opts.get('stylesheet.unitless', rng.choice([UNITLESS_PROPS, ['padding', 'width'], ['margin'], []]))
+            opts['stylesheet.unitless'] = spell(f, cur)
+            kinds.append('container:' + f)
+        elif ing == 'dict':
+            f = rng.choice(DICT_FORMS)
+            cur = opts.get('stylesheet.unitAliases', rng.choice([DEFAULT_ALIASES, {'e': 'rem', 'p': 'pc', 'q': 'Q', 'x': 'px'}, {}]))
+            opts['stylesheet.unitAliases'] = spell(f, cur)
+            kinds.append('container:' + f)
+        else:
+            for k, v in (('output.format', True), ('stylesheet.intUnit', 'px'), ('stylesheet.floatUnit', 'em'), ('stylesheet.json', False),
+                         ('stylesheet.shortHex', True), ('output.newline', '\n')):
+                if k not in opts and rng.random() < 0.6:
+                    opts[k] = v
+            kinds.append('explicit-defaults')
+    return kinds, opts
+
+
+def form_probes(rng, n):
+    """abbreviations for one written configuration: `+`-joined ones (the line structure), colours (shortHex), aliases and
+    unitless properties (containers), `!`"""
+    sh = [Num(False, '10', False, '', ''), Num(False, '10', False, '', 'p'), Num(True, '5', False, '', 'e'), Num(False, '', True, '5', ''),
+          Col('fc0', ''), Col('e7bc0b', ''), Col('ffcc00', ''), Col('f', '.5')]
+    out = [[Prop('p', 'padding', [sh[0]], False, False), Prop('m', 'margin', [sh[0], sh[2]], True, False)],
+           [Prop('c', 'color', [sh[4]], True, False), Prop('z', 'z-index', [sh[0]], False, False), Prop('w', 'width', [sh[3], sh[1]], False, False)],
+           [Prop('bd', 'border', [sh[0], sh[6]], False, False), Prop('bgc', 'background-color', [sh[7]], False, True),
+            Prop('lh', 'line-height', [sh[3]], False, False), Prop('c', 'color', [sh[5]], False, False)]]
+    while len(out) < n:
+        out.append([rand_prop(rng, None) for _ in range(rng.choice([1, 2, 2, 3, 4]))])
+    return out
+
+
+def gen_forms(ctx):
+    if not FORMS_ENABLED:
+        return []
+    rng = ctx.rng
+    quick = ctx.tier == 'quick'
+    cases = []
+    forms = systematic_forms()
+    forms += [rand_forms(rng) for _ in range(40 if quick else 200)]
+    per = 12 if quick else 24
+    for i, (kinds, opts) in enumerate(forms):
+        # one (quick) or two (thorough) syntaxes per written configuration, drawn anew on every run
+        syns = rng.sample(su.SYNTAXES, 1 if quick else 2)
+        for syn in syns:
+            cfg = form_cfg(syn, opts, kinds)
+            o = cfg.oracle_options()
+            for props in form_probes(rng, per):
+                cases.append((cfg, abbr_text(props), expected_text(props, syn, o), 'option-forms'))
+    return cases
 
 
 def corpus(ctx):
@@ -326,7 +537,7 @@ def corpus(ctx):
         except Exception:
             continue
         if isinstance(o.get('input'), str) and isinstance(o.get('expected'), str):
-            out.append((Cfg.from_json(o.get('config', {})), o['input'], o['expected'], os.path.basename(p)))
+            out.append((cfg_from_json(o.get('config', {})), o['input'], o['expected'], os.path.basename(p)))
     return out
 
 
@@ -357,6 +568,7 @@ def gen(ctx):
         for _ in range(per):
             props = [rand_prop(rng, table) for _ in range(rng.choice([1, 1, 1, 2, 3]))]
             cases.append((cfg, abbr_text(props), expected_text(props, syn, o), 'random'))
+    cases.extend(gen_forms(ctx))
     return cases
 
 
@@ -375,15 +587,17 @@ ROUTES = ['expand-dict', 'expand-config', 'expand-stylesheet', 'two-step', 'two-
 DELIVERIES = ['call', 'global-type', 'global-syntax', 'split', 'shadowed', 'global-shadowed']
 
 
-def decoy(v):
+def decoy(v, k=None):
     """a value of the same shape that would visibly change the output if a less specific layer won"""
+    if k in SWITCH_OPTIONS:
+        return not v            # a switch written in any form: the opposite reading
     if isinstance(v, bool):
         return not v
     if isinstance(v, str):
         return 'zz'
-    if isinstance(v, dict):
+    if isinstance(v, dict) or hasattr(v, 'keys'):
         return {'p': 'zz', 'e': 'zz', 'x': 'zz', 'r': 'zz', 'q': 'zz'}
-    if isinstance(v, list):
+    if isinstance(v, (list, tuple, frozenset)):
         return ['margin', 'color', 'top']
     return v
 
@@ -404,11 +618,11 @@ def deliver(cfg, delivery):
             (own, gsyn, gtyp)[i % 3][k] = opts[k]
     elif delivery == 'shadowed':
         own = opts
-        gsyn = {k: decoy(v) for k, v in opts.items()}
+        gsyn = {k: decoy(v, k) for k, v in opts.items()}
         gtyp = dict(gsyn)
     elif delivery == 'global-shadowed':
         gsyn = opts
-        gtyp = {k: decoy(v) for k, v in opts.items()}
+        gtyp = {k: decoy(v, k) for k, v in opts.items()}
     else:
         raise ValueError(delivery)
     if own or delivery == 'call':
@@ -509,7 +723,7 @@ def seq_server():
                 rr = RouteRunner()
                 out = None
                 for route, delivery, cj, abbr in json.loads(line):
-                    out = rr.run(route, delivery, abbr, Cfg.from_json(cj))
+                    out = rr.run(route, delivery, abbr, cfg_from_json(cj))
                 data = json.dumps(list(out))
             except BaseException as e:
                 data = json.dumps(['harness-error', repr(e)[:300]])
@@ -703,7 +917,17 @@ def run(ctx):
         'parse_stylesheet_abbreviation -> stylesheet_abbreviation -> stringify_stylesheet (string or token-list input, one or two '
         'equal Config objects) -- with the options arriving in the call config, the global config section of the type, of the '
         'syntax, split over the three layers, or shadowing decoy values in less specific layers; same expected line (oracle '
-        'only, the model has no notion of a route).  Tie: output string of the Coq model of the full pipeline.  Non-trivial: every case '
+        'only, the model has no notion of a route).  Option forms (how a configuration may write its options; same oracle, all '
+        'routes/deliveries as above): every on/off switch that reaches property lines (output.format, stylesheet.shortHex, '
+        'stylesheet.json, and without effect here stylesheet.skipUnmatched / jsonDoubleQuotes) written as True/1/1.0/2/\'true\'/\'yes\'/\'on\' '
+        'resp. False/0/0.0/\'\' (read by truth value; output.format only in its ON forms, the statement says nothing about '
+        'unformatted output), documented defaults written out explicitly, caller-set stylesheet.between / stylesheet.after (7 pairs) '
+        'and output.newline (\\n, \\r\\n, \\r) which then ARE the <between>/<after>/line break of the statement, 16 markup/comment/'
+        'bem/jsx/indent options that do not concern property lines present alongside, stylesheet.unitless as tuple/frozenset and '
+        'stylesheet.unitAliases as OrderedDict/read-only mapping; each alone (systematic) and in random mixtures with the option '
+        'sets, x `+`-joined / colour / alias / unitless / `!` probes + random abbreviations; the model receives the canonical '
+        'configuration (booleans, list/dict, unrelated options left out: it has no notion of them), so for those the '
+        'form itself is judged by the oracle only.  Tie: output string of the Coq model of the full pipeline.  Non-trivial: every case '
         '(each has at least one number or colour); distinct by (configuration, abbreviation).')
     stale = check_live_table(ctx)
     if stale:
@@ -721,6 +945,8 @@ def run(ctx):
         ctx.nontrivial((cfg.key(), s))
         ctx.cover('c05:' + tag)
         ctx.cover('c05:syntax:' + cfg.syntax)
+        for kind in getattr(cfg, 'kinds', ()):
+            ctx.cover('c05:option-form:' + kind)
         if '#' in s:
             ctx.cover('c05:has-colour')
         if '!' in s:
@@ -783,7 +1009,7 @@ def replay(ctx, obj):
     if s is None or 'expected' not in rp:
         print('replay names a broken obligation, no input: %s' % rp)
         return 1
-    cfg = Cfg.from_json(rp.get('config', {}))
+    cfg = cfg_from_json(rp.get('config', {}))
     route, delivery = rp.get('route', 'expand-dict'), rp.get('delivery', 'call')
     if route not in ROUTES or delivery not in DELIVERIES:
         print('replay names an unknown route/delivery: %s' % rp)
@@ -791,7 +1017,7 @@ def replay(ctx, obj):
     rr = RouteRunner()
     prelude = rp.get('prelude') or []
     for pj in prelude:
-        rr.run(pj.get('route', 'expand-dict'), pj.get('delivery', 'call'), pj['input'], Cfg.from_json(pj.get('config', {})))
+        rr.run(pj.get('route', 'expand-dict'), pj.get('delivery', 'call'), pj['input'], cfg_from_json(pj.get('config', {})))
     r = rr.run(route, delivery, s, cfg)
     bad = c05_oracle(s, cfg, rp['expected'], r)
     conf, glob = deliver(cfg, delivery)
